@@ -217,6 +217,21 @@ theorem C11_bytes (p : Policy) (hp : PlainC p.ensureInit) (input : Bytes) :
   obtain ⟨t, _, aps, _, _, hs⟩ := reread_open_tagC p hp input k hk htt hne
   exact C11_sanitizeAttrs p.ensureInit k.data t.attrs aps k.attrs hs hel hhref
 
+/-- (per-input form)  **C11 (byte level, plain policies)**: every a / area / base / link start tag with an href that an
+    HTML tokenizer reads from the returned bytes has, under the nofollow (noreferrer) options, a
+    rel attribute, and each of its rel attributes has the token. -/
+theorem C11_bytes_on (p : Policy) (input : Bytes) (hp : PlainOn p.ensureInit (tokenize input)) :
+    ∀ k ∈ tokenize (p.sanitizeCore input), (k.tt = .start ∨ k.tt = .selfClosing) → isHrefElement k.data = true →
+      (k.attrs.filter (·.key == b!"href")).isEmpty = false →
+      ((p.ensureInit.requireNoFollow || (hasHostHref k.attrs && p.ensureInit.requireNoFollowFullyQualifiedLinks)) = true →
+          HasRel k.attrs ∧ AllRel b!"nofollow" k.attrs) ∧
+      ((p.ensureInit.requireNoReferrer || (hasHostHref k.attrs && p.ensureInit.requireNoReferrerFullyQualifiedLinks)) = true →
+          HasRel k.attrs ∧ AllRel b!"noreferrer" k.attrs) := by
+  intro k hk htt hel hhref
+  have hne : k.attrs ≠ [] := by intro h; rw [h] at hhref; simp at hhref
+  obtain ⟨t, _, aps, _, _, hs⟩ := reread_open_tagOn p input hp k hk htt hne
+  exact C11_sanitizeAttrs p.ensureInit k.data t.attrs aps k.attrs hs hel hhref
+
 /-! ### the target / noopener clauses -/
 
 /-- the target attributes of a list, in order (a browser uses the first) -/
@@ -458,6 +473,22 @@ theorem C11_bytes_target (p : Policy) (hp : PlainC p.ensureInit) (input : Bytes)
   intro k hk htt hel hhref
   have hne : k.attrs ≠ [] := by intro h; rw [h] at hhref; simp at hhref
   obtain ⟨t, _, aps, _, _, hs⟩ := reread_open_tagC p hp input k hk htt hne
+  rw [hel] at hs
+  exact C11_sanitizeAttrs_target p.ensureInit t.attrs aps k.attrs hs hhref
+
+/-- (per-input form)  **C11, target and noopener clauses at byte level** (plain policies): on every `a` start tag with
+    an href that an HTML tokenizer reads from the returned bytes -/
+theorem C11_bytes_target_on (p : Policy) (input : Bytes) (hp : PlainOn p.ensureInit (tokenize input)) :
+    ∀ k ∈ tokenize (p.sanitizeCore input), (k.tt = .start ∨ k.tt = .selfClosing) → k.data = b!"a" →
+      (k.attrs.filter (·.key == b!"href")).isEmpty = false →
+      ((hasHostHref k.attrs && p.ensureInit.addTargetBlankToFullyQualifiedLinks) = true → FirstTargetBlank k.attrs) ∧
+      ((p.ensureInit.requireNoFollow || p.ensureInit.requireNoFollowFullyQualifiedLinks || p.ensureInit.requireNoReferrer ||
+          p.ensureInit.requireNoReferrerFullyQualifiedLinks || p.ensureInit.addTargetBlankToFullyQualifiedLinks) = true →
+        ((targets k.attrs).any fun a => asciiEqualFold a.val b!"_blank") = true →
+        HasRel k.attrs ∧ AllRel b!"noopener" k.attrs) := by
+  intro k hk htt hel hhref
+  have hne : k.attrs ≠ [] := by intro h; rw [h] at hhref; simp at hhref
+  obtain ⟨t, _, aps, _, _, hs⟩ := reread_open_tagOn p input hp k hk htt hne
   rw [hel] at hs
   exact C11_sanitizeAttrs_target p.ensureInit t.attrs aps k.attrs hs hhref
 
